@@ -1087,7 +1087,7 @@ Lemma obs_refresh_failure final f : (exists cp, f_path f = VTuple cp) ->
 Proof.
   intros [cp Hcp]. destruct f as [i v pth n]. cbn [f_path] in Hcp. subst pth.
   unfold refresh_failure, obs_failure, spec_refresh_failure. cbn [f_index f_value f_path f_reasons path_keys].
-  destruct v; try reflexivity; destruct (get_at final cp); reflexivity.
+  reflexivity.
 Qed.
 
 Lemma obs_refresh_test final sr rl t : r_cast rl = sr_cast sr -> tuple_paths t ->
